@@ -210,11 +210,6 @@ theorem defers_iff {c clock : VClock A} (hc : c.NoZero) (hk : clock.NoZero) : de
   · simp [l]
   · simp [l]
 
-def deferInsert (d : FMap (VClock A) (FSet M)) (c : VClock A) (ms : FSet M) : FMap (VClock A) (FSet M) :=
-  match d.get? c with
-  | some ex => d.insert c (unionSet ex ms)
-  | none => d.insert c ms
-
 theorem deferred_applyRm (s : Orswot M A) (ms : FSet M) (c : VClock A) :
     (applyRm s ms c).deferred = if defers c s.clock then deferInsert s.deferred c ms else s.deferred := by
   unfold applyRm defers deferInsert
